@@ -37,8 +37,8 @@ type dlCase struct {
 	Strategy  string   `json:"strategy"` // simple | precise | lookup | predicate
 	StratInit int      `json:"strat_init"`
 	PartInit  int      `json:"part_init,omitempty"` // lookup: limit argument the partition objects are constructed with
-	Limit     LimitCfg `json:"limit"`          // algo "script" = scripted trajectory below
-	Traj      []int    `json:"traj,omitempty"` // scripted estimates: traj[i] after i OnSample calls (last repeats)
+	Limit     LimitCfg `json:"limit"`               // algo "script" = scripted trajectory below
+	Traj      []int    `json:"traj,omitempty"`      // scripted estimates: traj[i] after i OnSample calls (last repeats)
 	WinSize   int      `json:"win_size"`
 	WinMin    int64    `json:"win_min"`
 	WinMax    int64    `json:"win_max"`
